@@ -503,4 +503,75 @@ theorem b2mIntSucc_bddSide (dvars : List MVar) (m2 : Mgr) (u : Nat) (umap : List
         rw [List.length_range] at hlen
         omega
 
+/-! ### the main loop, both halves -/
+
+/-- the main loop of `bdd_to_mdd` on a BDD manager whose bits are in zones: the MDD manager
+satisfies its invariant, and every `umap` entry `u ↦ r` is right — for every reference `s` to
+node `u` (complemented or not) the MDD reference `flip(r, s)` takes, on every valid integer
+assignment, the value of `s` on the encoded bits.  The BDD manager only grows (`Ext`), keeps its
+invariant and its variable order. -/
+theorem b2mLoop_bdd_sound (dvars : List MVar) (m2 : Mgr) (hI : Inv m2) (hoff : m2.lastLen = none)
+    (hz : ZoneOK dvars m2.tbl) (rm ord : List Nat)
+    (hord : ∀ u, u ∈ ord → rm.contains u = false → (m2.tbl.node? u).isSome = true)
+    (out : B2MOut) (mb' : Mgr)
+    (hr : b2mLoop rm (b2mBitToVar dvars) ord (MddMgr.new (some dvars)) [(1, 1)] m2 = (.ok out, mb')) :
+    BSide dvars m2 mb' ∧ MInv out.mdd ∧ out.mdd.tbl.vars = dvars ∧
+    ∀ (u : Nat) (r : Int), out.umap.lookup u = some r →
+      mb'.tbl.Mem (u : Int) ∧ out.mdd.tbl.Mem r ∧
+      ∀ (s : Int), s.natAbs = u → ∀ α, MValid out.mdd.tbl α →
+        denM out.mdd.tbl (flip r s) α = denN mb'.tbl s (bitsOfInts dvars α) := by
+  have hP0 : BSide dvars m2 m2 := ⟨hI, hoff, hz, Ext.refl _, Frame.refl _⟩
+  have hU0 : UmapOK (semB dvars m2.tbl) (Lb dvars m2) (MddMgr.new (some dvars)) [(1, 1)] := by
+    constructor
+    intro x r hl
+    by_cases hx : x = 1
+    · subst hx
+      simp [List.lookup_cons] at hl
+      subst hl
+      refine ⟨Or.inl rfl, ?_, ?_⟩
+      · rw [MTbl.levelOf_term _ 1 rfl]
+        show zoneLevel dvars m2.tbl (m2.tbl.levelOf ((1 : Nat) : Int)) ≤ dvars.length
+        rw [levelOf_term m2.tbl _ (by simp)]
+        unfold zoneLevel
+        rw [hz.order.l2v_none]
+        exact Nat.le_refl _
+      · intro α _
+        rw [denM_one]
+        show true = semB dvars m2.tbl ((1 : Nat) : Int) α
+        rw [semB_nat]
+        exact (den_one _ _).symm
+    · have : (x == 1) = false := by simpa using hx
+      simp [List.lookup_cons, this] at hl
+  have hQ0 : UmapKeys (Qb m2) [(1, 1)] := by
+    intro x r hl
+    by_cases hx : x = 1
+    · subst hx; exact Or.inl rfl
+    · have : (x == 1) = false := by simpa using hx
+      simp [List.lookup_cons, this] at hl
+  obtain ⟨hP', hinv, hext, hU, hQ⟩ := b2mLoop_sound_gen Qb (fun m => semB dvars m.tbl) (Lb dvars)
+    (fun mb x α hx => semB_neg dvars mb.tbl x α hx) rm (b2mBitToVar dvars) (BSide dvars m2)
+    (fun u => (m2.tbl.node? u).isSome = true)
+    (fun u umap mb var succs mb1 hP hK hs => b2mIntSucc_bddSide dvars m2 u umap mb var succs mb1 hP hK hs)
+    ord _ _ m2 out mb' hord hP0 (MInv.init dvars) hU0 hQ0 hr
+  refine ⟨hP', hinv, hext.vars.symm, ?_⟩
+  intro u r hl
+  obtain ⟨hm, _, hden⟩ := hU.ok u r hl
+  have hmu : mb'.tbl.Mem (u : Int) := hQ u r hl
+  have hW' := hP'.inv.wf.toWF
+  refine ⟨hmu, hm, ?_⟩
+  intro s hs α hα
+  have hms : mb'.tbl.Mem s := by
+    unfold Tbl.Mem at hmu ⊢
+    simpa [hs] using hmu
+  rw [← semB_eq dvars hW' hms]
+  unfold flip
+  split
+  · next hneg =>
+    have hsu : s = -((u : Nat) : Int) := by omega
+    have hu0 : ((u : Nat) : Int) ≠ 0 := by omega
+    rw [denM_neg _ hinv.wf.toMWF r α hm, hden α hα, hsu, semB_neg dvars mb'.tbl _ α hu0]
+  · next hneg =>
+    have hsu : s = ((u : Nat) : Int) := by omega
+    rw [hden α hα, hsu]
+
 end DD
